@@ -49,7 +49,10 @@ class MapProc(Process):
         if LOG['path']:
             with open(LOG['path'], 'a') as f:
                 f.write('%d %d\n' % (os.getpid(), int(np.real(row[0]))))
-        return fmap(row)
+        # extra positional / keyword arguments of compute() arrive AFTER the row; they are numbers that add up to zero here,
+        # so the expected result does not depend on them, while a row handed over in the wrong place cannot be evaluated
+        extra = sum(float(a) for a in args) + sum(float(v) for v in kwargs.values())
+        return fmap(row) + extra
 
     def _unit_computation(self, *args, **kwargs):
         # lazy mode hands the batch over as a dask array; child classes materialise it (parallel_compute wants numpy)
